@@ -9,13 +9,13 @@ V = os.path.dirname(os.path.abspath(__file__))
 T = {
     "C01": ("handle equality ⇔ function equality for all live handles in every reachable state: `canonicity` under `NInv`, `Good` preserved by every operation and by collections (induction over histories); negation is a free involution; on the packed `u32` words the code holds, negation is an involution without fixed points that flips only the flag, and the packing is a bijection onto handles with index < 2^31 (`C01_negation_on_words`, `C01_handle_words`); every state the model driver holds — after any list of requests, accepted or refused, successes and caught failures — satisfies the invariant, because the driver's run-time precondition check is proved sufficient (`C01_every_driver_state`, `C01_driver_step`)",
             "Lean: canonicity + Good preserved over op histories; strict differential tie"),
-    "C02": ("`applyIte_spec`: for every Good state (any cache content satisfying the invariant, any size) and every triple of live handles the result denotes ITE; `applyIte_total`: with fuel above the measure the only failure is 'Storage is full'",
+    "C02": ("`applyIte_spec`: for every Good state (any cache content satisfying the invariant, any size) and every triple of live handles the result denotes ITE; `applyIte_total`: with fuel above the measure the only failure is 'Storage is full'; through the dispatcher the model driver really runs (`exec`): `C02_driver_reply` (an accepted `ite` request returns a live handle denoting the ITE, no hypothesis about handles) and `C02_driver_total` (its only possible failure is a full table)",
             "Lean: refinement of apply_ite to ITE by induction on fuel; strict differential tie"),
     "C03": ("connectives as ITE instances, n-ary folds by list induction, Expr evaluation by structural induction, Expr::not rewrites preserve meaning, operator reader agrees with Rust precedence",
             "Lean: corollaries of the ITE refinement + structural inductions; strict differential tie"),
     "C04": ("`NInv` (regular then-edge, low≠high, ordering, no duplicate triple, only terminal is cell 1) is part of `Good` for every reachable state; reachable nodes ↔ regularised prefix-cofactor sub-functions (bijection); size = |descendants|, same for f and ¬f, stable while live",
             "Lean: invariant + bijection reachable nodes/sub-functions; strict differential tie"),
-    "C05": ("`collect_spec`: after the real sweep the state is Good again, every handle reachable from the roots denotes what it denoted, caches empty; later operations are covered because their theorems only need `Good`",
+    "C05": ("`collect_spec`: after the real sweep the state is Good again, every handle reachable from the roots denotes what it denoted, caches empty; later operations are covered because their theorems only need `Good`; `C05_driver_collection`: a `gc` request accepted by the driver's run-time check always completes with the full postcondition",
             "Lean: simulation of the array sweep by the function-view sweep + closure of descendants; strict differential tie"),
     "C06": ("`collect_exact` (stored nodes = reachable nodes after a collection), `alloc_spec`/`alloc_highwater` (lowest free cell reused before the table grows; high-water mark = peak), `put_full`/`mkNode_err` (failure only when every cell is occupied, state untouched)",
             "Lean: counting invariants over alloc/drop/sweep; strict differential tie incl. post-panic histories"),
@@ -29,9 +29,9 @@ T = {
             "Lean: closest-point characterisation by induction; strict differential tie"),
     "C11": ("`restrict_spec`: the result satisfies the Coudert–Madre relation `RestrictRel` on functions; the relation is functional, agrees on the care set, adds no variables, 1 when g ≤ f, cube ⇒ cofactor",
             "Lean: refinement to an inductive relation on functions; strict differential tie"),
-    "C12": ("`iteConstant_spec` (Some b ⇔ ITE constant b), `isImplies_spec`, totality for any Good cache, storage and cache contents unchanged",
+    "C12": ("`iteConstant_spec` (Some b ⇔ ITE constant b), `isImplies_spec`, totality for any Good cache, storage and cache contents unchanged; `C12_driver_reply` (through the dispatcher, no hypothesis about handles)",
             "Lean: induction on fuel + canonicity for cached constants; strict differential tie with forced hits"),
-    "C13": ("`satCount_top_spec`: result = semantic count; complement, inclusion–exclusion, unused-variable doubling as theorems about `count`",
+    "C13": ("`satCount_top_spec`: result = semantic count; complement, inclusion–exclusion, unused-variable doubling as theorems about `count`; `C13_driver_reply` (through the query dispatcher `execQuery`)",
             "Lean: memo-invariant induction over Nat (= BigUint); strict differential tie"),
     "C14": ("`oneSat_spec`, `paths_exactly_once'` for the explicit-stack iterator (each satisfying assignment is covered by exactly one yielded path), literal order; the `i32` literals pushed by `one_sat`/`paths` are the model's integers for every variable ≤ 2^31−1 (`C14_literal_words`)",
             "Lean: counting invariant of the stack iterator; strict differential tie"),
@@ -43,7 +43,7 @@ T = {
             "Lean: table invariant + array/function-view simulation; strict differential tie on chains and counters"),
     "C18": ("trace semantics of the direct-mapped cache for any key type/hash/size: a lookup returns v for k iff the last write to k's slot since the last clear was insert k v; statistics",
             "Lean: induction over event histories; strict differential tie with forced collisions"),
-    "C19": ("`RInv` preserved by every safe-API op, no op returns hang/ub/panic under `RInv`, refinement to a map K → Option V, iteration yields each stored value once",
+    "C19": ("`RInv` preserved by every safe-API op, no op returns hang/ub/panic under `RInv`, refinement to a map K → Option V, iteration yields each stored value once; `C19_get_mut`",
             "Lean: probe-sequence invariant + map refinement; strict differential tie in release and debug builds"),
     "C20": ("`arena_round` (BFS flatten + reverse take-fold = direct fold, no unwrap on None) for all six constructors, printing/eval/to_boxed corollaries, `value_mkNot`; Signal facts over BitVec 32",
             "Lean: induction on a queue of pending trees; BitVec arithmetic; strict differential tie"),
